@@ -129,6 +129,22 @@ def build_harness(features, release=False):
                      + r.stderr[-3000:])
 
 
+CLI_TARGET = os.path.join(CACHE, "target-cli")
+
+
+def cli_bin():
+    return os.path.join(CLI_TARGET, "debug", "rinklecate")
+
+
+def build_cli():
+    """The command-line tool of /repo's working tree (C20)."""
+    env = cargo_env()
+    env["CARGO_TARGET_DIR"] = CLI_TARGET
+    r = run(["cargo", "build", "--offline", "-p", "rinklecate"], cwd=REPO, env=env)
+    if r.returncode != 0:
+        raise Broken("rinklecate build failed:\n" + r.stderr[-3000:])
+
+
 def build_lean(targets=("Ink", "inkmodel")):
     r = run(["lake", "build", *targets], cwd=LEAN)
     if r.returncode != 0:
@@ -143,8 +159,10 @@ def run_translators(ctx):
             raise Broken(f"translator {os.path.basename(t)} failed:\n" + (r.stdout + r.stderr)[-2000:])
 
 
-def build_all(ctx, features=((),), release=False):
+def build_all(ctx, features=((),), release=False, cli=False):
     with BuildLock():
+        if cli:
+            build_cli()
         for f in features:
             build_harness(list(f), release=False)
             if release:
